@@ -46,6 +46,11 @@ def instances(tier, seed):
                             "fn": "splice", "timeout": 90 if tier == "quick" else 300,
                             "params": {"K": K, "new": new, "end": endmode, "layout": layout, "sloc": sloc},
                         })
+    # `new` formatted like the run it is spliced into (two runs: exactly that formatting, and that formatting plus one more)
+    for K in (1, 2, 3):
+        for endmode in ("given", "omitted"):
+            out.append({"name": "splice-K%d-fmt2like-%s" % (K, endmode), "fn": "splice", "timeout": 90 if tier == "quick" else 300,
+                        "params": {"K": K, "new": "fmt2", "end": endmode, "layout": "distinct", "sloc": None, "newlike": True}})
     # history twins: receiver and `new` were rendered / measured before the splice
     out += [dict(i, name=i["name"] + "-warm", params=dict(i["params"], warm=True)) for i in out
             if i["params"]["layout"] == "distinct" and i["params"]["sloc"] is None and (tier != "quick" or i["params"]["K"] in (1, 2, 3))]
@@ -53,6 +58,10 @@ def instances(tier, seed):
         for new in ("str", "fmt1"):
             out.append({"name": "native-K%d-%s" % (K, new), "fn": "splice_native", "timeout": 160 if tier == "quick" else 400, "cost": 9,
                         "params": {"K": K, "new": new, "L": 2 if tier == "quick" else 3}})
+    # append on native strings (characters symbolic: zero-width and double-width characters included)
+    for K in (1, 2):
+        out.append({"name": "native-append-K%d" % K, "fn": "splice_native", "timeout": 160 if tier == "quick" else 400, "cost": 9,
+                    "params": {"K": K, "new": "str", "L": 2 if tier == "quick" else 3, "append": True}})
     # three runs where the first and the last have the same formatting (and may have the same text): equal runs
     for cut in ("in0", "in1", "in2"):
         out.append({"name": "native-K3-twin-%s" % cut, "fn": "splice_native", "timeout": 120 if tier == "quick" else 400, "cost": 8,
@@ -61,7 +70,9 @@ def instances(tier, seed):
 
 
 def setup(params):
+    from chx.domains import widths
     install_space_mul()
+    widths.install_ext()     # a change that measures display width meets an oracle (unknown on abstract text), not a C extension
 
 
 def _atts(layout):
@@ -80,6 +91,9 @@ def _build(ns, ms, mk_text):
         new = FmtStr()
     elif kind == "fmt1":
         new = FmtStr(Chunk(mk_text(NEW_SID[0], ms[0]), NEW_ATTS[0]))
+    elif P.get("newlike"):
+        # the runs of `new` share exactly the formatting of f's first run (one of them has more)
+        new = FmtStr(Chunk(mk_text(NEW_SID[0], ms[0]), dict(atts[0])), Chunk(mk_text(NEW_SID[1], ms[1]), dict(atts[0], blink=True)))
     else:
         new = FmtStr(Chunk(mk_text(NEW_SID[0], ms[0]), NEW_ATTS[0]), Chunk(mk_text(NEW_SID[1], ms[1]), NEW_ATTS[1]))
     if P.get("warm"):
@@ -187,11 +201,19 @@ def splice_native(t0: str, t1: str, nw: str, start: int, end: int, t2: str) -> b
     from curtsies.formatstring import FmtStr, Chunk
     f, new = _nat_build(t0, t1, nw, t2)
     before = H.sym_cells(f)
-    r = f.splice(new, start, end)
     newc = H.sym_cells(new if isinstance(new, FmtStr) else FmtStr(Chunk(new)))
-    want = before[:start] + newc + before[end:]
+    if P.get("append"):
+        if start != 0 or end != 0:
+            return True
+        r = f.append(new)
+        want = before + newc
+    else:
+        r = f.splice(new, start, end)
+        want = before[:start] + newc + before[end:]
     got = H.sym_cells(r)
     ok = H.cells_equal(got, want) and len(r) == len(want) and len(r.s) == len(want) and H.cells_equal(H.sym_cells(f), before)
+    if P.get("append"):
+        return verdict(ok, len(nw) >= 1 and len(t0) >= 1)
     return verdict(ok, len(nw) >= 1 and len(t0) >= 2 and 1 <= start < end)
 
 
@@ -203,6 +225,17 @@ def _concrete_native(params, args):
     t2 = args[5] if len(args) > 5 else ""
     f, new = _nat_build(t0, t1, nw, t2)
     before = cells(f)
+    if params.get("append"):
+        if start != 0 or end != 0:
+            return {"ok": True, "observed": "not a case", "call": "-"}
+        try:
+            r = f.append(new)
+        except Exception as ex:
+            return {"ok": False, "observed": "raised %r" % (ex,), "expected": "a FmtStr", "call": "%r.append(%r)" % (f, new)}
+        want = before + cells(new)
+        got = cells(r)
+        return {"ok": got == want and len(r) == len(want) and r.s == "".join(c for c, _ in want), "observed": fmt_cells(got),
+                "expected": fmt_cells(want), "call": "%r.append(%r)" % (f, new)}
     try:
         r = f.splice(new, start, end)
     except Exception as ex:
